@@ -432,6 +432,9 @@ func finish(a *Agg, n int, start time.Time) int {
 		}
 		violLines = append(violLines, fmt.Sprintf("VIOLATION property=%s replay=%s", p.ID, path))
 	}
+	if nviol > 20 {
+		fmt.Printf("... and %d more distinct violation signatures (not listed)\n", nviol-20)
+	}
 	// reach conditions
 	var missing []string
 	if p.Required != nil {
